@@ -86,6 +86,16 @@ def run_unit(unit, tier, seed):
     I = Interp(E)
     unit.tier = tier
     unit.conformance_count = 0
+    gone = _harness_fit(unit)
+    if gone:
+        # the harness of this unit names private attributes / methods of the library that the working tree no longer has
+        # (renamed, inlined, removed): neither the proof part nor the bounded part can be trusted to exercise the code
+        res.undecided.append('unsupported: the harness of this unit relies on private name(s) %s that no longer occur in the '
+                             'library source (renamed or removed?)' % ', '.join(gone))
+        res.obligations, res.paths, res.notes = [], 0, []
+        res.functions_seen, res.solver_time, res.queries, res.hashes, res.conformance = {}, 0.0, 0, I.index.hashes(), 0
+        res.wall = time.time() - t0
+        return res
     try:
         unit.setup(I)
         E.explore(lambda _E: unit.run(I), on_path=lambda _E, rec: unit.on_path(I, rec))
@@ -136,6 +146,41 @@ def run_unit(unit, tier, seed):
         res.errors.append('bounded stand-in crashed: %s\n%s' % (e, traceback.format_exc()))
     res.wall = time.time() - t0
     return res
+
+
+_PRIVATE = None
+
+
+def _harness_fit(unit):
+    """Private names of the library that the unit's contract module mentions (recorded in contracts/private_names.json
+    when the contracts were written) and that no longer occur anywhere in the library's source."""
+    global _PRIVATE
+    import re
+    if _PRIVATE is None:
+        try:
+            names = json.load(open(os.path.join(ROOT, 'contracts', 'private_names.json')))
+        except Exception:
+            names = {}
+        repo = os.environ.get('VERIF_REPO', '/repo')
+        text = []
+        for dp, dn, fn in os.walk(os.path.join(repo, 'minecraft')):
+            for f in fn:
+                if f.endswith('.py'):
+                    try:
+                        text.append(open(os.path.join(dp, f)).read())
+                    except OSError:
+                        pass
+        _PRIVATE = (names, '\n'.join(text))
+    names, text = _PRIVATE
+    mods = {type(unit).__module__}
+    for base in type(unit).__mro__:
+        mods.add(base.__module__)
+    gone = []
+    for m in mods:
+        for n in names.get(m, []):
+            if n not in gone and not re.search(r'\b%s\b' % re.escape(n), text):
+                gone.append(n)
+    return sorted(gone)
 
 
 def load_known_findings():
